@@ -953,3 +953,33 @@ Proof.
   destruct (lookup (VS ".pc") fr) as [l|]; [|discriminate]. inversion Hs; subst; clear Hs.
   intros fr' Hin x w Hv Hn. apply G. eapply (L fr'); eauto. rewrite Eg. now right.
 Qed.
+
+(* ------------------------------------------------------------------ TailCall does not panic where its specification is defined *)
+
+Lemma rel_iread : forall s g h s1 v, Rel s g -> iread s h = Some (s1, v) -> Rel s1 g.
+Proof.
+  intros s g h s1 v (Rv & Rs & Rp & Epc & Est & Rw) H.
+  destruct (iread_spec _ _ _ _ H) as (_ & Hres & _). unfold Rel, cur. rewrite Hres. repeat split; auto.
+Qed.
+
+Lemma tailcall_defined_lemma : forall t s g p args g',
+  wf_table t -> Rel s g -> live s g -> tailcall_spec t g p args = Some g' ->
+  exists s', tailcall_impl t s p args = Some s'.
+Proof.
+  intros t s g p args g' Hwf HR HL H.
+  unfold tailcall_spec in H. unfold tailcall_impl.
+  destruct (return_spec g) as [g1|] eqn:Er; [|discriminate].
+  destruct HR as (Rv & Rs & Rp & Epc & Est & Rw).
+  destruct (iread_total s ".stack" Est) as (s1 & sv & Ei). rewrite Ei.
+  assert (HR1 : Rel s1 g) by (eapply rel_iread; [|eauto]; unfold Rel; repeat split; auto).
+  destruct (iread_spec _ _ _ _ Ei) as (Hsv & Hres1 & _). rewrite Hsv, Rs.
+  pose proof Er as Er'. unfold return_spec in Er'.
+  destruct (v_stack g) as [|fr rest] eqn:Eg; [discriminate|]. cbn [map].
+  destruct (lookup (VS ".pc") fr) as [l|] eqn:El; [|discriminate]. inversion Er'; subst g1; clear Er'.
+  cbn [v_pc] in H. destruct l as [| | |tailPC| |]; try discriminate.
+  assert (HL1 : live s1 g) by (intros fr' Hin x v Hv Hn; rewrite Hres1; eapply HL; eauto).
+  destruct (return_defined_lemma s1 g _ HR1 HL1 Er) as (s2 & Eret). rewrite Eret.
+  destruct (return_refines_lemma s1 g s2 HR1 Eret) as (g1 & Hg1 & HR2).
+  rewrite Er in Hg1. inversion Hg1; subst g1.
+  eapply call_defined_lemma; eauto.
+Qed.
